@@ -53,7 +53,9 @@ fn regular_table(rng: &mut Rng, tokn: &mut usize, allow_empty: bool, nested: boo
             let content = if allow_empty && kind == 0 {
                 rng.pick(&["", "", " ", "&nbsp;", "\n  ", "<span> </span>"]).to_string()
             } else if nested && depth > 0 && (kind == 1 || kind == 6) {
-                let (t, _) = regular_table(rng, tokn, false, false, depth - 1);
+                // (now and then with blank cells: a nested table may render as a lone rule)
+                let blank_nested = allow_empty && rng.chance(1, 3);
+                let (t, _) = regular_table(rng, tokn, blank_nested, false, depth - 1);
                 *tokn += 1;
                 tok = format!("t{}x", *tokn);
                 // the nested table first (its top border collapses into the rule above),
@@ -228,7 +230,7 @@ fn stacked(lines: &[String]) -> bool {
 fn check_c05(cases: &[Case], results: &[Option<RunResult>]) -> Vec<Violation> {
     let mut v = Vec::new();
     for (i, c) in cases.iter().enumerate() {
-        if c.meta.role() != "table" {
+        if c.meta.role() != "table" && c.meta.role() != "corpus" {
             continue;
         }
         let r = match &results[i] {
@@ -244,7 +246,49 @@ fn check_c05(cases: &[Case], results: &[Option<RunResult>]) -> Vec<Violation> {
         }
         let g = grid(&lines);
         let is_stacked = stacked(&lines);
-        let layout: Vec<Vec<(usize, String)>> = c.meta.strs().iter().map(|row| row.split(',').map(|x| { let mut p = x.splitn(2, ':'); (p.next().unwrap().parse().unwrap(), p.next().unwrap_or("").to_string()) }).collect()).collect();
+        // the (colspan, token) layout: from the generator, or - for corpus cases - read off the DOM
+        let (layout, nested): (Vec<Vec<(usize, String)>>, bool) = if c.meta.role() == "table" {
+            (c.meta.strs().iter().map(|row| row.split(',').map(|x| { let mut p = x.splitn(2, ':'); (p.next().unwrap().parse().unwrap(), p.next().unwrap_or("").to_string()) }).collect()).collect(), c.meta.nums()[0] == 1)
+        } else {
+            let dom = dom_of(r);
+            let mut table: Option<&DNode> = None;
+            walk(&dom, &mut |n, _| {
+                if table.is_none() && n.is("table") {
+                    table = Some(n);
+                }
+            });
+            let mut rows: Vec<Vec<(usize, String)>> = Vec::new();
+            let mut nested = false;
+            if let Some(t) = table {
+                fn collect<'a>(n: &'a DNode, rows: &mut Vec<&'a DNode>) {
+                    for k in n.kids() {
+                        if k.is("tr") {
+                            rows.push(k);
+                        } else if k.is("thead") || k.is("tbody") {
+                            collect(k, rows);
+                        }
+                    }
+                }
+                let mut trs = Vec::new();
+                collect(t, &mut trs);
+                for tr in trs {
+                    let mut row = Vec::new();
+                    for cell in tr.kids().iter().filter(|x| x.is("td") || x.is("th")) {
+                        let span = cell.attr("colspan").and_then(|x| x.parse::<usize>().ok()).unwrap_or(1).max(1);
+                        let txt: String = visible_chars(std::slice::from_ref(cell)).into_iter().collect();
+                        if has_element(cell.kids(), &["table"]) {
+                            nested = true;
+                        }
+                        row.push((span, txt));
+                    }
+                    rows.push(row);
+                }
+            }
+            if rows.is_empty() || rows[0].is_empty() {
+                continue;
+            }
+            (rows, nested)
+        };
         let ncols: usize = layout[0].iter().map(|x| x.0).sum();
         // a colspan over a column that is empty in all its single-span cells (known A-17)
         let mut col_has_single = vec![false; ncols];
@@ -272,8 +316,10 @@ fn check_c05(cases: &[Case], results: &[Option<RunResult>]) -> Vec<Violation> {
             for x in 0..g[y].len() {
                 let ch = g[y][x];
                 if is_rule_glyph(ch) {
-                    let up = has_down(at(y as isize - 1, x));
-                    let down = has_up(at(y as isize + 1, x));
+                    // (a bar, as the property says: a junction glyph of another rule directly above or
+                    // below is not one)
+                    let up = at(y as isize - 1, x) == '│';
+                    let down = at(y as isize + 1, x) == '│';
                     if has_up(ch) != up || has_down(ch) != down {
                         bad = Some((y, x, ch));
                         break 'outer;
@@ -282,6 +328,11 @@ fn check_c05(cases: &[Case], results: &[Option<RunResult>]) -> Vec<Violation> {
             }
         }
         if let Some((y, x, ch)) = bad {
+            // known: a row whose band is empty (its cells hold only nested tables that render as a
+            // lone rule, which collapses into the row's own rule) still joins its bars into the
+            // rules above and below: a junction glyph then faces another rule, not a bar
+            let faces_rule = (has_up(ch) && is_rule_glyph(at(y as isize - 1, x))) || (has_down(ch) && is_rule_glyph(at(y as isize + 1, x)));
+            let known = if faces_rule && nested { Some("junction_over_empty_band") } else { known };
             v.push(viol(i, "junction glyph does not match the bars above and below", format!("line {} column {} glyph {:?}\n{}", y, x, ch, lines.join("\n")), known));
             continue;
         }
@@ -303,7 +354,7 @@ fn check_c05(cases: &[Case], results: &[Option<RunResult>]) -> Vec<Violation> {
                 continue;
             }
         }
-        if c.meta.nums()[0] == 0 {
+        if !nested {
             // flat table: in each band (between full rules) bars are at the same positions
             let mut band: Option<Vec<usize>> = None;
             for y in 0..g.len() {
@@ -853,7 +904,16 @@ fn gen_c16(tier: &str, rng: &mut Rng) -> Vec<Case> {
             cases.push(c2);
         }
     }
-    // the trivial decorator produces nothing but text, whitespace and borders: C03's direct check
+    // the trivial decorator produces nothing but document text, white space and table borders
+    let n5 = if tier == "thorough" { 20000 } else { 1500 };
+    for _ in 0..n5 {
+        let tables = rng.chance(1, 3);
+        let o = GenOpts { tables: if tables { 1 } else { 0 }, links: true, imgs: true, strike: false, sup: true, dl: true, pre: true, br: true, ..Default::default() };
+        let (html, _) = gen_doc(rng, o);
+        let cfg = Cfg { deco: 3, strike: 2, ..Default::default() };
+        let id = cases.len();
+        cases.push(mk_case(id, 0, cfg, rng.range(4, 80), html.into_bytes(), Some(0), g("trivial"), "trivial"));
+    }
     cases
 }
 fn check_c16(cases: &[Case], results: &[Option<RunResult>]) -> Vec<Violation> {
@@ -885,6 +945,25 @@ fn check_c16(cases: &[Case], results: &[Option<RunResult>]) -> Vec<Violation> {
                 let want: String = c.meta.strs()[0].chars().filter(|ch| !ch.is_whitespace()).collect();
                 if got != want {
                     v.push(viol(i, "decorator affixes do not surround exactly the element text", format!("wanted {:?} got {:?}", want, got), None));
+                }
+            }
+            if c.meta.role() == "trivial" {
+                let dom = dom_of(r);
+                if crate::props3::c03_known(&dom).is_none() {
+                    let has_table = has_element(&dom, &["table"]);
+                    let border = |ch: &char| has_table && (matches!(*ch, '─' | '│' | '┬' | '┴' | '┼') || *ch == '/');
+                    let mut want: Vec<char> = visible_chars_strict(&dom).into_iter().filter(|ch| !border(ch)).collect();
+                    let mut got: Vec<char> = lines.join("\n").chars().filter(|ch| !ch.is_whitespace()).filter(|ch| !border(ch)).collect();
+                    if has_table {
+                        want.sort();
+                        got.sort();
+                    }
+                    if want != got {
+                        // known: <sup> is marked up by the renderer itself (^{..}, or superscript digits
+                        // for a digits-only text), whatever the decorator
+                        let known = if has_element(&dom, &["sup"]) { Some("trivial_sup_markup") } else { None };
+                        v.push(viol(i, "trivial decorator: output is more than document text, white space and borders", format!("wanted {:?} got {:?}", want.iter().take(60).collect::<String>(), got.iter().take(60).collect::<String>()), known));
+                    }
                 }
             }
             if c.meta.role() == "dl_lines" {
